@@ -86,7 +86,7 @@ cpdef object idx_to_date_fast(
     Returns:
         Datetime for the index
     """
-    cdef int seconds
+    cdef long long seconds
 
     if force_into_project:
         if idx < 0:
@@ -94,7 +94,7 @@ cpdef object idx_to_date_fast(
         if idx >= size:
             return end_date
 
-    seconds = idx * resolution
+    seconds = <long long>idx * resolution
     return start_date + timedelta(seconds=seconds)
 
 
